@@ -424,7 +424,7 @@ def run_property(prop_id, tier, seed):
         lines.append(f"  {what}")
         if v.get("failing_input"):
             lines.append(f"  failing input ({v['failing_input'].get('origin', '')}): {json.dumps(v['failing_input'].get('inputs'))[:300]}")
-            lines.append(f"  observed: {v['failing_input'].get('observed', '')[:300]}")
+            lines.append(f"  observed: {str(v['failing_input'].get('observed', ''))[:300]}")
         reported += 1
         out_violations.append(v)
     # de-duplicate KNOWN-FINDING lines
